@@ -28,6 +28,9 @@ def nontrivial(req, obs):
         # a conditional with a second group, and something that can be selected or skipped
         t = "\t".join(f[2:])
         return "if" in t and ("el" in t) and obs != "bad-request"
+    if f[0] == "C11.frag":
+        t = "\t".join(f[1:])
+        return "if" in t and ("el" in t) and obs != "bad-request"
     return False
 
 
@@ -70,6 +73,11 @@ def shrink(req):
                 continue
             for i in range(len(lines)):
                 yield "\t".join(f[:k] + [name + sep + "".join(lines[:i] + lines[i + 1:])] + f[k + 1:])
+    elif f[0] == "C11.frag" and len(f) > 1:
+        lines = [x for x in re.split(r"(?<=\\n)", f[1]) if x]
+        if len(lines) <= 80:
+            for i in range(len(lines)):
+                yield "C11.frag\t" + "".join(lines[:i] + lines[i + 1:])
     elif f[0] == "C11.cond" and len(f) > 2:
         toks = f[2].split(" ")
         for i in range(len(toks)):
@@ -121,6 +129,18 @@ def search(ctx):
             out.append("C11.raw\t\t#include \"h.h\"\\n%s#include \"h.h\"\\nprobe G B\\n\th.h=%s" % (between, hdr))
         out.append("C11.raw\tG=1\t#include \"h.h\"\\n#include \"h.h\"\\n#include \"h.h\"\\nprobe G B\\n\th.h=%s" % hdr)
         out.append("C11.raw\t\t#include \"w.h\"\\n#include \"h.h\"\\n#include \"w.h\"\\nprobe G B\\n\th.h=%s\tw.h=#include \"h.h\"\\n" % hdr)
+    # the second entry point: the define it supplies, seen by every kind of test; the fragment including itself
+    for t in ("#if __HLSL_VERSION >= 2021\\nT\\n#else\\nF\\n#endif\\n", "#if __HLSL_VERSION == 2021\\nT\\n#else\\nF\\n#endif\\n",
+              "#ifdef __HLSL_VERSION\\nT\\n#else\\nF\\n#endif\\n", "#ifndef __HLSL_VERSION\\nT\\n#else\\nF\\n#endif\\n",
+              "#if defined(__HLSL_VERSION)\\nT\\n#else\\nF\\n#endif\\n", "#if __HLSL_VERSION\\nT\\n#else\\nF\\n#endif\\n",
+              "v __HLSL_VERSION\\n", "#if 0\\na\\n#else\\nb\\n#endif\\n", "#if 1\\na /* c */ b\\n#endif\\n", "a\\n#endif\\n", "#if 1\\na\\n",
+              "#ifndef G\\n#define G\\nfirst\\n#include \"main.rssl\"\\n#else\\nsecond\\n#endif\\n"):
+        out.append("C11.frag\t" + t)
+    # nothing selected at all: the parser must be handed Eof only
+    for t in ("", "\\n", " \\n", "/* c */", "// c\\n", "#if 0\\nx\\n#endif\\n", "#if 1\\n#else\\nx\\n#endif\\n", "#define A 1\\n", "#pragma once\\n"):
+        out.append("C11.raw\t\t" + t)
+        out.append("C11.frag\t" + t)
+    out.append("C11.raw\t\t#include \"e.h\"\\n\te.h=")
     for hostile in ("$", "#3", "#while", "#else junk", "#include <a", "#pragma bogus", "#define", "#include \"missing.h\""):
         out.append("C11.raw\t\t#if 0\\n%s\\n#endif\\nx\\n" % hostile)
         out.append("C11.raw\t\t#if 0\\n#if 1\\n%s\\n#endif\\n#endif\\nx\\n" % hostile)
@@ -284,7 +304,8 @@ SPEC = {
         "if_closed_by_includers_endif_rejected", "else_of_other_file_rejected",
         "nonname_directive_ignored_when_skipped",
         "include_arm_shape_agree", "include_is_processed_each_time", "guard_else_group_delivered_on_reinclude",
-        "defined_is_protected", "cond_eval_composed", "composed_shape_agree"]],
+        "defined_is_protected", "cond_eval_composed", "composed_shape_agree",
+        "entry_shape_agree", "fragment_is_a_file", "fragment_define_selects", "selected_text_reaches_parser"]],
     "harness": "c11",
     "nontrivial": nontrivial,
     "finding_key": finding_key,
@@ -316,7 +337,14 @@ SPEC = {
                   "and a guard block with an #else group delivers that group on a visit with the guard macro defined, "
                   "for every includer state (guard_else_group_delivered_on_reinclude); the include arm of "
                   "preprocess_command and FileLoader are pinned token for token (no exit other than skipped group / "
-                  "malformed operand / depth limit, no file memory other than pragma_once_files).",
+                  "malformed operand / depth limit, no file memory other than pragma_once_files); (6) both public ways "
+                  "in and the way out are covered: preprocess_fragment is pinned as preprocess(name, [(name, input)], "
+                  "[__HLSL_VERSION=2021]) and proved to be one run of the per-file loop from the empty state "
+                  "(fragment_is_a_file: so every theorem stated for all handlers / states / token streams holds for "
+                  "fragments; it also shows that a successful run of the entry file always ends with the empty chain, i.e. "
+                  "the final test of preprocess_initial_file is dead code), and prepare_tokens - pinned token for token - is "
+                  "proved to hand the parser exactly the non-blank tokens of the output, in order, independent of context, "
+                  "closed by a single Eof (selected_text_reaches_parser).",
     "rule": "requests through the real rssl_preprocess::preprocess: exhaustive directive sequences over the property's "
             "10-symbol alphabet up to length 6 (quick) / 7 (thorough); random sequences of length <= 25 over an extended "
             "alphabet; random #if conditions to depth 5 over literals {0,1,2,5,7,2^32-1,2^32,2^63,2^64-1}, macros and "
@@ -327,7 +355,11 @@ SPEC = {
             "of 18 guard shapes - pure guard, guard with #else / #elif, text outside, #pragma once, nested guards, guard "
             "defined by the includer or the API, header that undefines its guard, inverted guard, wrappers - each "
             "included 2-6 times directly and through other headers with #define/#undef of the tested macros in "
-            "between). Observed = surviving token texts per "
+            "between; and a fragment stream C11.frag through the second entry point preprocess_fragment: single-file "
+            "programs of the same generators with 12 ways of looking at the define the function supplies, incl. a "
+            "fragment that includes itself by its own name). In every stream the accepted output is also handed to the "
+            "real prepare_tokens, whose result must be the non-blank tokens of the output plus Eof. "
+            "Observed = surviving token texts per "
             "line or the error variant; oracle = independent reference C preprocessors written in Rust (one on the "
             "symbolic requests, one on the raw text: translation phases 2-4, Prosser macro expansion, full C "
             "constant-expression grammar, per-file if-section balance); non-trivial = the request has an #if-like line, "
@@ -339,7 +371,8 @@ SPEC = {
         "the skip gating of every preprocess_command arm, BinOp::apply, every parse_pN::parse_op, parse_p2, parse_leaf, "
         "MAX_INCLUDE_DEPTH, the per-file block count of preprocess_included_file (enter / check / restore), the "
         "line-break test on API defines, the exact statement sequence of the #include arm, the field list of struct "
-        "FileLoader and the tail of FileLoader::load, that `defined` is tested before the macro loop and only in #if/#elif) and tools/gens/c12.py (MacroTables, used by the imported C12 macro model) — "
+        "FileLoader and the tail of FileLoader::load, that `defined` is tested before the macro loop and only in #if/#elif, "
+        "the whole body of preprocess_fragment with its define list, the whole body of prepare_tokens) and tools/gens/c12.py (MacroTables, used by the imported C12 macro model) — "
         "re-run on /repo's working tree every time",
         "hand-written recursion scheme of Model/CondExpr.lean, line processing of Model/CondChain.lean, and the "
         "composed token-level Model/CondFile.lean (built on C12's Model/Macro.lean + Model/Include.lean); tied to the "
@@ -360,6 +393,14 @@ SPEC = {
         "conditions are checked by correspondence only (expansion itself is C12's property)",
         "the theorems about selection assume well-formed #elif conditions: the code evaluates #elif conditions even in "
         "groups C never looks at (theorem dead_elif_is_evaluated), which the property excludes",
+        "include handlers that report a real name different from the include name (two names reaching one file; "
+        "FileLoader::real_name_remap) are outside the C11 model and harness, which key files and #pragma once by "
+        "include name: that dimension is C12's (covered there by its correspondence run and oracle only as far as "
+        "C11's conditionals are concerned)",
+        "the oracle for C11.frag takes the define of preprocess_fragment from its documentation (__HLSL_VERSION = 2021, "
+        "constant FRAGMENT_DEFINES in harness/src/c11.rs); the model takes it from the source (Gen.fragmentDefines) and "
+        "theorem entry_shape_agree pins the two to each other; only defines of the form `name decimal` are modelled "
+        "(anything else is answered `unsupported` and flagged by entry_shape_agree)",
         "termination guards of Model.CondFile.topLoop are run-time tests (reported as `unsupported` if they ever fire; "
         "they never did); C12 proves the analogous guards of applyLoop unreachable",
     ],
